@@ -47,7 +47,7 @@ BAD_ENCODED = {'foreign-letter': 'x', 'letter+32-of-symbol': 'K'}
 
 def bounds(tier, seed):
     return {'max_records': 3 if tier == 'quick' else 4, 'variants': [0, 1] if tier == 'quick' else [0, 1, 2],
-            'k': 'all 1..size+2', 'formats': FMTS}
+            'k': 'thorough: all 1..size+2 on all 4 configurations; quick: all k on plain+eager, boundary-adjacent and small k on gzip/lazy', 'formats': FMTS}
 
 
 def violations_for(fmt, n, tier='thorough', seed=0):
@@ -153,9 +153,20 @@ def check_file(res, fmt, variants, deadline, tier='thorough', seed=0, only_viol=
         feats = {'format': fmt, 'class': cls, 'sub': sub}
         base_case = {'fmt': fmt, 'variants': list(variants), 'viol': [cls, sub, p, c]}
         feats['bad_record_is_last'] = (p == n - 1)
+        all_k = list(range(1, len(data) + 3))
+        # quick tier: every k on the plain eager reader; on the other three configurations the k's around every line
+        # boundary plus a few small ones (thorough: every k everywhere)
+        bounds_ = set()
+        pos = 0
+        for ln in lines:
+            pos += len(ln) + 1
+            bounds_.update((pos - 1, pos, pos + 1))
+        sub_k = sorted(k for k in ({1, 2, 3, 5, 8, 13, len(data) - 1, len(data), len(data) + 1, len(data) + 2} | bounds_)
+                       if 1 <= k <= len(data) + 2)
         for gz in (False, True):
             for lazy in (False, True):
-                for k in [None] + list(range(1, len(data) + 3)):
+                ks = all_k if (tier == 'thorough' or (not gz and not lazy)) else sub_k
+                for k in [None] + ks:
                     if deadline.expired():
                         res.capped = True
                         return
